@@ -111,11 +111,9 @@ def handle (args : List Sexp) : String :=
   | _ => "bad-op"
 
 /-! ## closure fragment (Spec/GoClosure.lean, Model/Closures.lean)
-   runc FUEL PROG → c=<normal|panic|stuck|fuel>:<v1,v2,…> s=<normal|panic|stuck|fuel>:<v1,v2,…> ws=<true|false> dom=<true|false> mech=<cdlbka bits>
+   runc FUEL PROG → c=<normal|panic|stuck|fuel>:<v1,v2,…> s=<normal|panic|stuck|fuel>:<v1,v2,…> ws=<true|false> mech=<cdlbkan bits>
      c = yaegi's frame mechanism (`Clos.runM` with the mechanism the extractor recognised in the source),
-     s = Go's lexical-scoping semantics (`Clos.runS`), ws = the program is well scoped,
-     dom = the program is in the domain of the theorem (`inDom`: no bare-variable range bound, F51; no loop body
-           redeclaring the loop variable's name at its top level, F52)
+     s = Go's lexical-scoping semantics (`Clos.runS`), ws = the program is well scoped
    XEXPR = (lit n) | (var x) | (bin op a b) | (neg a) | (cpl a)          -- x a NAME
    XCOND = (cmp op a b) | (not a) | (land a b) | (lor a b)
    PROG  = skip | brk | cont | (seq a b) | (set D x e) | (setfn D x (p…) body res) | (setcall D x f e…)
@@ -186,7 +184,7 @@ def handle (args : List Sexp) : String :=
     (match fuel.nat?, parseS prog with
      | some f, some p =>
        let m := Mech.ofFacts Generated.C01.mechFacts
-       s!"c={showEnd (runM m f p)} s={showEnd (runS f p)} ws={p.wellScoped []} dom={p.inDom} mech={bit m.cloneFrame}{bit m.defineFresh}{bit m.loopFresh}{bit m.loopCopyBack}{bit m.keyFresh}{bit m.boundAlias}"
+       s!"c={showEnd (runM m f p)} s={showEnd (runS f p)} ws={p.wellScoped []} mech={bit m.cloneFrame}{bit m.defineFresh}{bit m.loopFresh}{bit m.loopCopyBack}{bit m.keyFresh}{bit m.boundAlias}{bit m.redeclNop}"
      | _, _ => "bad-op")
   | _ => "bad-op"
 end ClosFront
